@@ -185,3 +185,48 @@ def state_refusal(ctx, fn, rule, kind, fx=None):
                           (eff, c["ln"], "count/capacity" if kind == "push" else "count",
                            kind, "full" if kind == "push" else "empty"), fn.file, c["ln"])
     return n
+
+
+def region_upper_bound(ctx, fx, fn, pidx, size_rx, rule="R-GUARD.region"):
+    """a pointer-to-offset validator refuses addresses beyond the end of the region: some refusing comparison relates a
+    value derived from the pointer parameter to a value derived from the region size (a field or helper matching size_rx).
+    Without it a foreign pointer that merely lies above the base is accepted and written through."""
+    from rules.pair import err_blocks
+    srx = re.compile(size_rx)
+    fw = fn.forward_locals([pidx])
+    eb = err_blocks(fn)
+
+    def mentions_size(l):
+        locs, sites = fn.backslice([l], max_nodes=120)
+        for loc, kind, pl in sites:
+            if kind == "assign":
+                for o in rv_operands(pl[2]):
+                    p = op_place(o)
+                    if p and any(isinstance(e, str) and srx.search(e) for e in p[1:]):
+                        return True
+            elif kind == "call" and srx.search(pl["f"]):
+                return True
+        return False
+    found = None
+    for (b, i), st in fn.iter_locs():
+        if st[0] != "a" or st[2][0] != "bin" or st[2][1] not in ("Lt", "Le", "Gt", "Ge") or len(st[1]) != 1:
+            continue
+        a, c = op_local(st[2][2]), op_local(st[2][3])
+        for x, y in ((a, c), (c, a)):
+            if x is None or y is None or x not in fw or not mentions_size(y):
+                continue
+            for sb in fn.blocks():
+                t = fn.term(sb)
+                if t[0] == "sw" and op_local(t[1]) == st[1][0]:
+                    succs = fn.succ(sb)
+                    if any(s in eb for s in succs) and any(s not in eb for s in succs):
+                        found = st[3]
+    ok = found is not None
+    ctx.obligation(rule, fn.id, "address compared with base + region size", ok,
+                   sample={"fn": fn.id, "param": fn.local_name(pidx), "size_source": size_rx, "guard_line": found})
+    if not ok:
+        ctx.violation(rule, fn.id, "no upper bound on the address",
+                      "%s turns a caller-supplied pointer into an offset without a refusing comparison against the end of the "
+                      "region (/%s/): a pointer above the region is accepted, and the pool links free-list data through it"
+                      % (fn.id.rsplit("::", 1)[-1], size_rx), fn.file, fn.line)
+    return 1
